@@ -322,6 +322,31 @@ def r52(ctx: Ctx) -> RuleReport:
                         rep.violation('penman.tree:Tree.reset_variables: every node variable not yet mapped receives a new name', fi.loc(nd.ast),
                                       'an unmapped variable can pass without being given a name: ' + ' -> '.join(repr(cfg.nodes[p]) for p in skip[-4:]))
                         return rep
+    if not good and vm:
+        # are the new names handed out while walking the nodes (depth-first), or in another order?
+        stores_any = [n for n in walk_local(fi.node) if isinstance(n, ast.Assign) and isinstance(n.targets[0], ast.Subscript) and norm(n.targets[0].value) == vm]
+        for st_ in stores_any:
+            encl = []
+            cur = st_
+            while id(cur) in pm:
+                cur = pm[id(cur)]
+                if isinstance(cur, ast.For):
+                    encl.append(cur)
+            if not encl:
+                continue
+            outer_ = encl[-1]
+            it_ = norm(outer_.iter)
+            if it_ == 'self.nodes()':
+                continue
+            grouped = isinstance(outer_.iter, ast.Call) and isinstance(outer_.iter.func, ast.Attribute) and outer_.iter.func.attr in ('items', 'values', 'keys') \
+                and isinstance(outer_.iter.func.value, ast.Name)
+            if grouped:
+                d_ = outer_.iter.func.value.id
+                rep.violation('penman.tree:Tree.reset_variables: new names are chosen node by node in depth-first order', fi.loc(st_),
+                              f'`{norm(st_)[:40]}` runs in a loop over `{it_}`, a table that groups the variables (by prefix): the names are handed out group by group, so a node '
+                              f'whose prefix occurred earlier is named before nodes that come first in the tree - with a format that does not contain {{prefix}} ("v{{i}}") the '
+                              f'numbering is no longer the depth-first order of the nodes (`{d_}` keeps the order in which the groups first appear, not the order of the nodes)')
+                return rep
     if not good and loop is not None and isinstance(loop.target, ast.Tuple):
         # the skip test is made against another set: whose names does that set hold?
         v = norm(loop.target.elts[0])
@@ -500,6 +525,17 @@ def r55(ctx: Ctx) -> RuleReport:
             src = norm(rets[0].value) if rets else ''
             good = '- 1' in src and ('>= 2' in src or '> 1' in src)
             rep.add('penman.graph:Graph.reentrancies: reports count - 1 for nodes with at least two entrancies', fi.loc(), 'ok' if good else 'undecided', src[:80])
+            return rep
+    if not loop_incs:
+        # entrancies collected in a set per node and counted by its size: parallel edges fall together
+        adds = [n for n in walk_local(fi.node) if isinstance(n, ast.Call) and isinstance(n.func, ast.Attribute) and n.func.attr == 'add' and isinstance(n.func.value, ast.Subscript)
+                and any(isinstance(a, ast.For) for a in _anc(pm, n))]
+        rets_ = [n for n in walk_local(fi.node) if isinstance(n, ast.Return) and n.value is not None]
+        if adds and rets_ and 'len(' in norm(rets_[0].value):
+            rep.violation('penman.graph:Graph.reentrancies: one count per entrant edge', fi.loc(adds[0]),
+                          f'`{norm(adds[0])[:50]}` records each entrancy in a SET and the result is the size of that set: two edges into a node that put the same value there '
+                          f'(two relations from the same node, a repeated triple) count once, so the count is no longer the in-degree - '
+                          f'"(w / want :ARG0 (b / boy) :ARG1 b)" reports no re-entrancy for b')
             return rep
     if len(loop_incs) != 1:
         rep.undecided('penman.graph:Graph.reentrancies: one count per entrant edge', fi.loc(), f'{len(loop_incs)} increments in loops')
@@ -1213,6 +1249,8 @@ def r73(ctx: Ctx) -> RuleReport:
             'the call sits in the handler of the failed self.next(): no token was bound',
     }
     n_calls = 0
+    _r73_view: Dict[str, tuple] = {}
+    _r73_rd: Dict[str, dict] = {}
     for fi in ctx.repo.all_functions():
         scope = set(fi.params) | {k for k, v in ctx.cg.local_assigns(fi).items() if v}
         for call, ts in ctx.cg.calls_in(fi):
@@ -1234,6 +1272,23 @@ def r73(ctx: Ctx) -> RuleReport:
                 passed = set(names[:len(call.args)]) | {k.arg for k in call.keywords if k.arg}
                 n_calls += 1
                 missing = sorted(p for p in optional - passed if p in scope)
+                if missing:
+                    # the caller must HOLD the value when it makes the call: a definition reaches the call that is not made by the statement the call belongs to
+                    # (`for _, _, target in self.edges()` binds `target` from the very result of the call)
+                    try:
+                        from ..cfg import reaching_defs as _rdefs
+                        vw = _r73_view.setdefault(fi.fq, (CFG(fi.node), ctx.repo.parent_map(fi.node)))
+                        cfg_, pm_ = vw
+                        rd_ = _r73_rd.setdefault(fi.fq, _rdefs(cfg_, fi.params))
+                        cn_ = owner_node(cfg_, pm_, call)
+                        held = []
+                        for p in missing:
+                            defs_ = set(rd_.get(cn_, {}).get(p, ())) - {cn_}
+                            if defs_:
+                                held.append(p)
+                        missing = held
+                    except AnalysisError:
+                        pass
                 key = f'{fi.module.name}:{fi.qualname}: {norm(call)[:60]}'
                 if not missing:
                     if optional & passed & scope:
@@ -2667,10 +2722,12 @@ def r104(ctx: Ctx) -> RuleReport:
                         if isinstance(lp2, ast.For) and lp2 is not loop and any(isinstance(x, ast.Call) and norm(x.func) in ('count', 'itertools.count', 'cycle', 'itertools.cycle') for x in ast.walk(lp2.iter)) \
                                 and any(isinstance(d2, ast.Assign) and any(isinstance(x, ast.Name) and x.id == v for x in ast.walk(d2.targets[0])) for d2 in lp2.body if isinstance(d2, ast.Assign)):
                             endless_bodies.add(cfg.node_of(lp2))
-                    stale = cfg.path_avoiding(starts, {un}, lambda nd: nd.id in dn or nd.id == head or nd.id in endless_bodies)
+                    # (paths stay inside the loop: leaving it and coming back through an enclosing loop is a new run of this loop, not a next iteration)
+                    inside = body_nodes | {head} | {nd_.id for nd_ in cfg.nodes if nd_.kind == 'cond' and nd_.ast is not None and any(nd_.ast is x for x in ast.walk(loop))}
+                    stale = cfg.path_avoiding(starts, {un}, lambda nd: nd.id in dn or nd.id == head or nd.id in endless_bodies or nd.id not in inside)
                     # ... and some complete iteration leaves v alone (otherwise v is ordinary loop state that every continuing iteration renews)
                     if stale is not None:
-                        full = cfg.path_avoiding(starts, {head}, lambda nd: nd.id in dn or nd.id in endless_bodies)
+                        full = cfg.path_avoiding(starts, {head}, lambda nd: nd.id in dn or nd.id in endless_bodies or nd.id not in inside)
                         if full is None:
                             stale = None
                     if stale is not None:
@@ -3171,4 +3228,221 @@ def r120(ctx: Ctx) -> RuleReport:
                                   f'`{norm(u)[:40]}` silently means "up to the last character" / "from the start" - the last character is cut off or the whole text is '
                                   f'taken twice')
     rep.analysed['find_results'] = n
+    return rep
+
+
+# ---------------------------------------------------------------------------------------------
+@rule('R125', 'a list that is split by two filters and put together again keeps every element exactly once (the filters are complementary)')
+def r125(ctx: Ctx) -> RuleReport:
+    import re as _re
+    from .. import boolnorm as bn
+    rep = RuleReport('R125', r125.title, floor=0)
+    n_sites = 0
+    for fi in ctx.repo.all_functions():
+        las = ctx.cg.local_assigns(fi)
+        parts = {}
+        for nm, vals in las.items():
+            vs = [v for v in vals if isinstance(v, ast.AST)]
+            if len(vals) == 1 and len(vs) == 1 and isinstance(vs[0], ast.ListComp) and len(vs[0].generators) == 1:
+                g = vs[0].generators[0]
+                if len(g.ifs) >= 1 and isinstance(g.target, ast.Name) and norm(vs[0].elt) == g.target.id and isinstance(g.iter, ast.Name):
+                    parts[nm] = (g.iter.id, g.target.id, g.ifs, vs[0])
+        if len(parts) < 2:
+            continue
+        for n in walk_local(fi.node):
+            if not (isinstance(n, ast.BinOp) and isinstance(n.op, ast.Add) and isinstance(n.left, ast.Name) and isinstance(n.right, ast.Name)
+                    and n.left.id in parts and n.right.id in parts and n.left.id != n.right.id):
+                continue
+            (s1, v1, c1, _), (s2, v2, c2, _) = parts[n.left.id], parts[n.right.id]
+            if s1 != s2:
+                continue
+            # only where the concatenation REPLACES the list that was split (S = A + B, S[:] = ... A + B ...): elsewhere two filtered views are just two views
+            pmf = ctx.repo.parent_map(fi.node)
+            st_ = n
+            while not isinstance(st_, ast.stmt):
+                st_ = pmf[id(st_)]
+            replaces = isinstance(st_, ast.Assign) and any(
+                (isinstance(t_, ast.Name) and t_.id == s1) or (isinstance(t_, ast.Subscript) and isinstance(t_.slice, ast.Slice)) for t_ in st_.targets)
+            if not replaces:
+                continue
+            n_sites += 1
+            key = f'{fi.module.name}:{fi.qualname}: `{norm(n)}` puts the two parts of `{s1}` together again'
+
+            def form(var, conds):
+                canon = lambda src, var=var: _re.sub(r'(?<![\w.])' + _re.escape(var) + r'(?![\w])', 'X', src)
+                ab = bn.Abstractor(canon=canon)
+                return bn.mk_and([ab.formula(c) for c in conds])
+            f1, f2 = form(v1, c1), form(v2, c2)
+            atoms = sorted(set(bn.atoms_of(f1)) | set(bn.atoms_of(f2)))
+
+            def feasible(env):
+                # what is known about the atoms: a str is atomic; a member of a set of variables is a str
+                for a, val in env.items():
+                    m = _re.fullmatch(r'isinstance\((.+), str\)', a)
+                    if m and val and env.get(f'is_atomic({m.group(1)})') is False:
+                        return False
+                    m = _re.fullmatch(r'(.+) in (\w+)', a)
+                    if m and val and (env.get(f'isinstance({m.group(1)}, str)') is False or env.get(f'is_atomic({m.group(1)})') is False):
+                        return False
+                return True
+            known = all(_re.fullmatch(r'isinstance\(.+\)|is_atomic\(.+\)|.+ in \w+|.+ is None|.+ == .+', a) for a in atoms)
+            bad = None
+            for env in bn.assignments([f1, f2], limit=12):
+                if not feasible(env):
+                    continue
+                vals = [bn.evaluate(f1, env), bn.evaluate(f2, env)]
+                if sum(vals) != 1:
+                    bad = (env, vals)
+                    break
+            if bad is None:
+                rep.ok(key, fi.loc(n), f'{bn.show(f1)}  /  {bn.show(f2)}')
+            elif known:
+                env, vals = bad
+                what = 'neither filter' if sum(vals) == 0 else 'both filters'
+                cond = ', '.join(f'{a} is {v}' for a, v in sorted(env.items()))
+                rep.violation(key, fi.loc(n), f'the filters `{bn.show(f1)}` and `{bn.show(f2)}` are not complementary: an element with [{cond}] passes {what} - '
+                              + ('it is silently dropped from the list (a branch whose target is None or a number disappears from its node, and with it a triple of the graph)'
+                                 if sum(vals) == 0 else 'it is listed twice'))
+            else:
+                rep.undecided(key, fi.loc(n), f'the filters `{bn.show(f1)}` and `{bn.show(f2)}` are not visibly complementary')
+    rep.analysed['split_and_join_sites'] = n_sites
+    return rep
+
+
+# ---------------------------------------------------------------------------------------------
+@rule('R126', 'a function created inside a loop does not read a variable the loop re-binds, unless it binds the value when it is created (late binding)')
+def r126(ctx: Ctx) -> RuleReport:
+    from ..cfg import assigned_names
+    rep = RuleReport('R126', r126.title, floor=0)
+    n_inner = 0
+    for fi in ctx.repo.all_functions():
+        for lp in walk_local(fi.node):
+            if not isinstance(lp, (ast.For, ast.While)):
+                continue
+            rebound = set()
+            if isinstance(lp, ast.For):
+                rebound |= {x.id for x in ast.walk(lp.target) if isinstance(x, ast.Name)}
+            for st in ast.walk(lp):
+                if isinstance(st, ast.stmt) and st is not lp and not isinstance(st, (ast.FunctionDef, ast.AsyncFunctionDef, ast.ClassDef)):
+                    try:
+                        rebound |= assigned_names(st)
+                    except Exception:
+                        pass
+            inners = [x for b in lp.body for x in ast.walk(b) if isinstance(x, (ast.FunctionDef, ast.Lambda))]
+            for inner in inners:
+                n_inner += 1
+                a = inner.args
+                params = {p.arg for p in a.posonlyargs + a.args + a.kwonlyargs} | ({a.vararg.arg} if a.vararg else set()) | ({a.kwarg.arg} if a.kwarg else set())
+                body = inner.body if isinstance(inner.body, list) else [inner.body]
+                local = set(params)
+                for b in body:
+                    for x in ast.walk(b):
+                        if isinstance(x, ast.Name) and isinstance(x.ctx, ast.Store):
+                            local.add(x.id)
+                reads = {x.id for b in body for x in ast.walk(b) if isinstance(x, ast.Name) and isinstance(x.ctx, ast.Load)}
+                captured = sorted((reads - local) & rebound)
+                name = inner.name if isinstance(inner, ast.FunctionDef) else '<lambda>'
+                key = f'{fi.module.name}:{fi.qualname}: `{name}` created in a loop over `{norm(lp.iter)[:30] if isinstance(lp, ast.For) else norm(lp.test)[:30]}`'
+                if not captured:
+                    rep.ok(key, fi.loc(inner), 'reads nothing the loop re-binds')
+                    continue
+                # does the function object outlive the iteration?
+                escapes = None
+                if isinstance(inner, ast.FunctionDef):
+                    for x in ast.walk(lp):
+                        if isinstance(x, ast.Name) and x.id == inner.name and isinstance(x.ctx, ast.Load):
+                            par = ctx.repo.parent_map(fi.node).get(id(x))
+                            if isinstance(par, ast.Call) and par.func is x:
+                                continue                                # called on the spot
+                            escapes = x
+                else:
+                    par = ctx.repo.parent_map(fi.node).get(id(inner))
+                    if not (isinstance(par, ast.Call) and par.func is inner):
+                        # key=lambda ...: used by sorted()/min()/max() at once does not outlive the call
+                        if isinstance(par, ast.keyword) and par.arg == 'key':
+                            escapes = None
+                        else:
+                            escapes = inner
+                if escapes is None:
+                    rep.ok(key, fi.loc(inner), f'reads {captured} but is only used within the iteration')
+                else:
+                    rep.violation(key, fi.loc(inner), f'`{name}` reads {captured}, which the loop binds anew in every iteration, and the function object is kept beyond the iteration '
+                                  f'(line {getattr(escapes, "lineno", inner.lineno)}): when it is called later it sees the values of the LAST iteration - every function made in this loop '
+                                  f'then uses the last key / the last list, not its own (bind the value with a default argument or functools.partial)')
+    rep.analysed['functions_created_in_loops'] = n_inner
+    return rep
+
+
+# ---------------------------------------------------------------------------------------------
+@rule('R127', 'the result of str.split / rsplit is unpacked into a fixed number of names only where the number of parts is known')
+def r127(ctx: Ctx) -> RuleReport:
+    rep = RuleReport('R127', r127.title, floor=0)
+    n = 0
+    for fi in ctx.repo.all_functions():
+        for st in walk_local(fi.node):
+            if not (isinstance(st, ast.Assign) and isinstance(st.targets[0], (ast.Tuple, ast.List)) and isinstance(st.value, ast.Call)
+                    and isinstance(st.value.func, ast.Attribute) and st.value.func.attr in ('split', 'rsplit')):
+                continue
+            if any(isinstance(e, ast.Starred) for e in st.targets[0].elts):
+                continue
+            if norm(st.value.func.value) == 're':
+                continue
+            n += 1
+            k = len(st.targets[0].elts)
+            recv = norm(st.value.func.value)
+            sep = st.value.args[0] if st.value.args else None
+            sep_none = sep is None or (isinstance(sep, ast.Constant) and sep.value is None)
+            key = f'{fi.module.name}:{fi.qualname}: `{norm(st)[:60]}`'
+            fx = facts_ex(ctx, fi, st)
+            guarded = any(recv in f and ((' in ' in f) or 'count(' in f or 'len(' in f) for f, pol in fx)
+            if guarded:
+                rep.ok(key, fi.loc(st), 'under a test of the text that is split')
+            else:
+                fewer = 'an empty or blank text gives no part at all, a text without blanks gives one' if sep_none else f'a text without {norm(sep)} gives a single part'
+                rep.violation(key, fi.loc(st), f'split returns as many parts as the text happens to have - {fewer} - but exactly {k} names are bound and nothing on the way tests `{recv}`: '
+                              f'the statement raises ValueError for such a text (str.partition always returns three parts; split does not)')
+    rep.analysed['split_unpackings'] = n
+    return rep
+
+
+# ---------------------------------------------------------------------------------------------
+@rule('R128', 'epigraph markers are told apart by their class (isinstance / mode), never by == or membership: two markers of different classes can be equal')
+def r128(ctx: Ctx) -> RuleReport:
+    rep = RuleReport('R128', r128.title, floor=3)
+    # is marker equality class-blind?  (read from the class, not assumed)
+    am = ctx.repo.cls('penman.surface', 'AlignmentMarker')
+    eq = am.find_method('__eq__')
+    class_blind = eq is not None and not any(isinstance(x, ast.Call) and norm(x.func) == 'type' or isinstance(x, ast.Attribute) and x.attr == '__class__'
+                                             for x in walk_local(eq.node))
+    why = ('AlignmentMarker.__eq__ compares prefix and indices only, so an Alignment and a RoleAlignment for the same token are equal' if class_blind
+           else 'marker equality is not identity')
+    for modname in ('penman.transform', 'penman.layout', 'penman.surface', 'penman.graph', 'penman.__main__'):
+        m = ctx.repo.module(modname)
+        for fi in m.all_funcs:
+            if fi.cls is not None and fi.name == '__eq__':
+                continue
+            markers = set()
+            for n in walk_local(fi.node):
+                if isinstance(n, (ast.For, ast.comprehension)) and isinstance(n.target, ast.Name) and 'epi' in norm(n.iter).lower() and '.items()' not in norm(n.iter):
+                    markers.add(n.target.id)
+            for n in walk_local(fi.node):
+                if isinstance(n, ast.Call) and isinstance(n.func, ast.Name) and n.func.id == 'isinstance' and len(n.args) == 2 \
+                        and isinstance(n.args[0], ast.Name) and n.args[0].id in markers:
+                    rep.ok(f'{fi.fq}: {norm(n)[:50]}', fi.loc(n), 'by class')
+                bad = None
+                if isinstance(n, ast.Compare) and len(n.ops) == 1 and isinstance(n.ops[0], (ast.In, ast.NotIn, ast.Eq, ast.NotEq)) \
+                        and isinstance(n.left, ast.Name) and n.left.id in markers:
+                    r_ = n.comparators[0]
+                    if isinstance(r_, ast.Constant) or (isinstance(n.ops[0], (ast.In, ast.NotIn)) and isinstance(r_, (ast.Dict,))):
+                        continue
+                    bad = (n, 'compares' if isinstance(n.ops[0], (ast.Eq, ast.NotEq)) else 'looks up')
+                if isinstance(n, ast.Call) and isinstance(n.func, ast.Attribute) and n.func.attr in ('remove', 'index', 'count') and len(n.args) == 1 \
+                        and isinstance(n.args[0], ast.Name) and n.args[0].id in markers:
+                    bad = (n, f'list.{n.func.attr} looks up')
+                if bad and class_blind:
+                    n_, verb = bad
+                    rep.violation(f'{fi.fq}: {norm(n_)[:60]}', fi.loc(n_), f'`{norm(n_)[:50]}` {verb} a marker by ==: {why}. A target alignment that equals the role alignment of the same '
+                                  f'triple (":mod~e.3 7~e.3") is taken for it - it is dropped, moved to the wrong triple or removed in place of the other one')
+                elif bad:
+                    rep.undecided(f'{fi.fq}: {norm(bad[0])[:60]}', fi.loc(bad[0]), why)
     return rep
